@@ -79,12 +79,20 @@ def run(ctx, idx):
     # are per cell; a contraction, a positional operation or a mask-skipping reduction computes something else)
     # the weights enter every result: a return that never looked at them (a shortcut for one input, say) is not the weighted
     # definition - with the weight 0 the mean is 0/0, a missing cell, not the input
+    undecided = []
     for name in ("WeightedSum", "WeightedMean"):
         d, r = res[name]
         wnames = [nm for nm, p_ in d.inputs.items() if p_.is_a(idx, "mpilot.params.ListParameter") and "eight" in nm]
         for n, s_, v in R.ret_sites(d, r):
             if isinstance(v, Arr) and wnames:
                 okw = all(("@" + w_) in v.D for w_ in wnames)
+                conds_ = r.return_conds.get(id(s_), ())
+                deps_ = frozenset().union(*[r.cond_deps.get(id(t_), frozenset()) for t_, p_ in conds_]) if conds_ else frozenset()
+                if not okw and all(("@" + w_) in (v.D | deps_) for w_ in wnames):
+                    # the weights only decide that this branch is taken: whether what it returns is the definition for exactly
+                    # those weights is arithmetic on their values, not something the shape of the code settles
+                    undecided.append("C07.d: %s line %d: the weights select this return but do not enter its value; whether the shortcut equals the weighted definition for the selected weights is not decided" % (name, R.line_of(s_)))
+                    continue
                 ctx.ob("C07.d", R.ret_key(d, n) + "::uses-the-weights", d.module.rel, R.line_of(s_), okw, "the returned value is computed from %s" % ", ".join(wnames) if okw else
                        "this return of %s does not depend on %s at all: for every weight vector the command is defined cell by cell from the weights too (one input with weight 0 gives 0/0, a missing cell - not the input's values)" % (name, ", ".join(wnames)))
     for name in ARITH:
@@ -154,3 +162,5 @@ def run(ctx, idx):
             fresh = not any(R.is_input_token(a) for a in v.alias)
             ctx.ob("C07.d", R.ret_key(d, n) + "::fresh-copy", d.module.rel, R.line_of(s), fresh and v.D == frozenset({"InFieldName"}),
                    "returns a fresh array holding the input's values" if fresh else "Copy returns its input object itself: the 'copy' shares storage with the source")
+    if undecided:
+        raise AnalysisError(undecided[0])
